@@ -154,6 +154,23 @@ func (vc *VC) translate() {
 		}
 	}
 	vc.items = append(vc.items, &item{probe: true})
+	if vc.con != nil {
+		for _, fc := range vc.con.ForbidCalls {
+			cond, pos := Term("true"), token.NoPos
+			for _, b := range vc.fn.Blocks {
+				for _, ins := range b.Instrs {
+					if vc.matchesBodyCall(ins, fc.Fn) {
+						cond, pos = "false", ins.Pos()
+					}
+				}
+			}
+			pr := fc.Props
+			if len(pr) == 0 {
+				pr = vc.con.Props
+			}
+			vc.checkG("forbid-call", pos, fc.Fn, "true", cond, pr)
+		}
+	}
 	if vc.con != nil && len(vc.con.Effects) > 0 {
 		saved := vc.con.FreshWrites
 		vc.con.FreshWrites = nil
@@ -860,6 +877,37 @@ func (vc *VC) loopHeader(b *ssa.BasicBlock, inEdges []Term, inPreds []*ssa.Basic
 	if vc.con != nil && len(vc.con.Props) > 0 {
 		props = vc.con.Props
 	}
+	if ls != nil && ls.Complete != nil {
+		// exits of the natural loop must leave from the header (the range / condition is exhausted);
+		// a panic is not an exit
+		cond, pos := Term("true"), token.NoPos
+		for _, lb := range vc.fn.Blocks {
+			if !vc.loopBlks[h][lb.Index] || lb.Index == h {
+				continue
+			}
+			for _, s := range lb.Succs {
+				if !vc.loopBlks[h][s.Index] {
+					if len(s.Instrs) > 0 {
+						if _, isPanic := s.Instrs[len(s.Instrs)-1].(*ssa.Panic); isPanic && len(s.Succs) == 0 {
+							continue
+						}
+					}
+					cond = "false"
+					for _, ins := range s.Instrs {
+						if ins.Pos().IsValid() {
+							pos = ins.Pos()
+							break
+						}
+					}
+				}
+			}
+		}
+		pr := ls.Complete.Props
+		if len(pr) == 0 {
+			pr = props
+		}
+		vc.checkG("loop-complete", pos, "loop "+ls.Key, "true", cond, pr)
+	}
 	// 1. invariant on entry: evaluate with phis := entry incoming values
 	preHeap := vc.cur
 	if ls != nil {
@@ -1046,6 +1094,22 @@ func (vc *VC) backEdgeChecks(hb *ssa.BasicBlock, edge Term) {
 		}
 		vc.iterationNames(hb, ce)
 		t, wfs := ce.evalWithSides(bc.Cond)
+		if ce.err != nil {
+			// a `continue` inside a nested block: names of that block are in scope where the iteration ends
+			if lp := lastPos(vc.blk); lp.IsValid() {
+				saved := vc.evalPos
+				vc.evalPos = lp
+				ce = vc.envAt(vc.blk, vc.cur, nil)
+				vc.evalPos = saved
+				for name, v := range hce.vars {
+					if _, has := ce.vars[name]; !has {
+						ce.vars[name] = v
+					}
+				}
+				vc.iterationNames(hb, ce)
+				t, wfs = ce.evalWithSides(bc.Cond)
+			}
+		}
 		if ce.err != nil {
 			vc.unsupp("body_calls %q: %v (back edge from block %d %s)", bc.Text, ce.err, vc.blk.Index, vc.blk.Comment)
 			continue
@@ -1398,4 +1462,14 @@ func (vc *VC) matchesBodyCall(ins ssa.Instruction, fn string) bool {
 		return true
 	}
 	return false
+}
+
+// lastPos: position of the last positioned instruction of a block.
+func lastPos(b *ssa.BasicBlock) token.Pos {
+	for i := len(b.Instrs) - 1; i >= 0; i-- {
+		if p := b.Instrs[i].Pos(); p.IsValid() {
+			return p
+		}
+	}
+	return token.NoPos
 }
